@@ -108,7 +108,7 @@ func derivesFromEncodingParam(v ssa.Value, depth int) bool {
 }
 
 func genInventory(pkgs []*packages.Package) {
-	var panicFuncs, globals, sharedWrites, randReads []string
+	var panicFuncs, globals, sharedWrites, randReads, sharedShapes, sharedHazards []string
 	keyCalls := map[string]bool{}
 	for _, p := range pkgs {
 		sp := shortPkg(p.PkgPath)
@@ -117,6 +117,12 @@ func genInventory(pkgs []*packages.Package) {
 		for _, n := range scope.Names() {
 			if v, ok := scope.Lookup(n).(*types.Var); ok && !isTestFile(p.Fset, v.Pos()) {
 				globals = append(globals, sp+"."+n)
+				var hazards []string
+				shape := typeShape(v.Type(), map[string]bool{}, &hazards)
+				sharedShapes = append(sharedShapes, sp+"."+n+" : "+shape)
+				for _, h := range hazards {
+					sharedHazards = append(sharedHazards, sp+"."+n+" reaches "+h)
+				}
 			}
 		}
 		for _, f := range p.Syntax {
@@ -210,7 +216,16 @@ func genInventory(pkgs []*packages.Package) {
 					}
 				case *ssa.Call:
 					c := x.Call
-					if c.IsInvoke() || c.StaticCallee() == nil || c.StaticCallee().Signature.Recv() == nil || len(c.Args) == 0 {
+					if c.IsInvoke() {
+						// a method call through an interface value that lives in shared state (e.g. a package-level hash.Hash)
+						if g := rootGlobal(c.Value, 0); g != nil && own[g.Pkg] != "" && c.Method.Name() != "Error" {
+							sharedWrites = append(sharedWrites, fmt.Sprintf("%s invokes .%s on shared %s", name, c.Method.Name(), g.Name()))
+						} else if derivesFromEncodingParam(c.Value, 0) {
+							sharedWrites = append(sharedWrites, fmt.Sprintf("%s invokes .%s on a value of *Encoding", name, c.Method.Name()))
+						}
+						continue
+					}
+					if c.StaticCallee() == nil || c.StaticCallee().Signature.Recv() == nil || len(c.Args) == 0 {
 						continue
 					}
 					recv := c.Args[0]
@@ -223,6 +238,14 @@ func genInventory(pkgs []*packages.Package) {
 							sharedWrites = append(sharedWrites, fmt.Sprintf("%s calls (*big).%s on %s", name, callee.Name(), g.Name()))
 						} else if derivesFromEncodingParam(recv, 0) {
 							sharedWrites = append(sharedWrites, fmt.Sprintf("%s calls (*big).%s on a value of *Encoding", name, callee.Name()))
+						}
+					} else if callee.Pkg != nil && own[callee.Pkg] == "" {
+						// any other pointer-receiver method of a foreign package (sync.Pool, sync.Mutex, bytes.Buffer, hash state …)
+						// called on memory that belongs to a package-level variable or to a shared *Encoding
+						if g := rootGlobal(recv, 0); g != nil && own[g.Pkg] != "" {
+							sharedWrites = append(sharedWrites, fmt.Sprintf("%s calls (%s).%s on %s", name, callee.Pkg.Pkg.Path(), callee.Name(), g.Name()))
+						} else if derivesFromEncodingParam(recv, 0) {
+							sharedWrites = append(sharedWrites, fmt.Sprintf("%s calls (%s).%s on a value of *Encoding", name, callee.Pkg.Pkg.Path(), callee.Name()))
 						}
 					}
 				}
@@ -257,8 +280,69 @@ func genInventory(pkgs []*packages.Package) {
 	}
 	fmt.Fprintf(&sb, "/-- the same names as byte lists (kernel-reducible prefix tests) -/\ndef globalsBytes : List (List UInt8) := [%s]\n\n", strings.Join(gb, ", "))
 	fmt.Fprintf(&sb, "/-- effect summary: stores / map updates / receiver-mutating math/big calls whose target is rooted in a package-level variable or a *basex.Encoding, outside init and NewEncoding -/\ndef sharedWrites : List String := %s\n\n", leanStrings(dedup(sharedWrites)))
+	sort.Strings(sharedShapes)
+	sort.Strings(sharedHazards)
+	fmt.Fprintf(&sb, "/-- the memory reachable from every package-level variable, as a type shape: own struct types expanded field by field, foreign named types by name -/\ndef sharedShapes : List String := %s\n\n", leanStrings(sharedShapes))
+	fmt.Fprintf(&sb, "/-- package-level variables from which a type with interior mutability is reachable (sync.*, sync/atomic.*, channels, hash/buffer state) -/\ndef sharedHazards : List String := %s\n\n", leanStrings(dedup(sharedHazards)))
 	fmt.Fprintf(&sb, "/-- functions that read crypto/rand.Reader -/\ndef randReaders : List String := %s\n\n", leanStrings(dedup(randReads)))
 	fmt.Fprintf(&sb, "/-- call sites on application key objects: function:method -/\ndef keyCallSites : List String := %s\n\n", leanStrings(kc))
 	sb.WriteString("end Saltpack.Gen\n")
 	writeIfChanged("Inventory.lean", sb.String())
+}
+
+// typeShape renders the memory reachable from a value of type t: struct types of
+// the repository's own packages are expanded field by field (so a new field —
+// a cache, a pool, a lock — changes the shape), foreign named types are printed by
+// name; types with interior mutability are recorded as hazards.
+func typeShape(t types.Type, seen map[string]bool, hazards *[]string) string {
+	switch x := t.(type) {
+	case *types.Named:
+		q := x.String()
+		pkg := ""
+		if x.Obj().Pkg() != nil {
+			pkg = x.Obj().Pkg().Path()
+		}
+		switch {
+		case pkg == "sync" || pkg == "sync/atomic" || pkg == "hash" || pkg == "bytes" && x.Obj().Name() == "Buffer" || pkg == "math/rand" || pkg == "bufio":
+			*hazards = append(*hazards, q)
+			return q
+		case strings.HasPrefix(pkg, "github.com/keybase/saltpack"):
+			if seen[q] {
+				return shortType(q)
+			}
+			seen[q] = true
+			return shortType(q) + "=" + typeShape(x.Underlying(), seen, hazards)
+		default:
+			if _, isIface := x.Underlying().(*types.Interface); isIface && q != "error" {
+				return q + "(interface)"
+			}
+			return q
+		}
+	case *types.Pointer:
+		return "*" + typeShape(x.Elem(), seen, hazards)
+	case *types.Slice:
+		return "[]" + typeShape(x.Elem(), seen, hazards)
+	case *types.Array:
+		return fmt.Sprintf("[%d]", x.Len()) + typeShape(x.Elem(), seen, hazards)
+	case *types.Map:
+		return "map[" + typeShape(x.Key(), seen, hazards) + "]" + typeShape(x.Elem(), seen, hazards)
+	case *types.Chan:
+		*hazards = append(*hazards, "chan "+x.Elem().String())
+		return "chan " + typeShape(x.Elem(), seen, hazards)
+	case *types.Struct:
+		var fs []string
+		for i := 0; i < x.NumFields(); i++ {
+			fs = append(fs, x.Field(i).Name()+" "+typeShape(x.Field(i).Type(), seen, hazards))
+		}
+		return "struct{" + strings.Join(fs, "; ") + "}"
+	case *types.Signature:
+		return "func"
+	case *types.Interface:
+		return "interface"
+	}
+	return t.String()
+}
+
+func shortType(q string) string {
+	return strings.Replace(strings.Replace(q, "github.com/keybase/saltpack/encoding/", "", 1), "github.com/keybase/saltpack", "sp", 1)
 }
